@@ -39,6 +39,7 @@ Definition set_o_charset (o : options) (v : list Z) : options :=
    there is none *)
 Definition ed_ref (e : editor) : Res (editor * Z * Z) :=
   match e_ref e with None => Panic P_index | Some r => Ok r end.
+Definition ref_parent (r : editor * Z * Z) : editor := fst (fst r).
 Definition ref_start (r : editor * Z * Z) : Z := snd (fst r).
 Definition ref_end (r : editor * Z * Z) : Z := snd r.
 
